@@ -28,8 +28,8 @@ def matrix(draw, nmax=40):
     n = draw(st.sampled_from([1, 2, 3, 4, 5, 8, 13, 20, 40]))
     n = min(n, nmax)
     cls = draw(st.sampled_from(SPECTRA))
-    condexp = draw(st.floats(0.0, 6.0))
-    u = onp.array(sorted(draw(st.lists(st.floats(0.0, 1.0), min_size=n, max_size=n))))
+    condexp = draw(gen.floats(0.0, 6.0))
+    u = onp.array(sorted(draw(st.lists(gen.floats(0.0, 1.0), min_size=n, max_size=n))))
     sig = 10.0 ** (-condexp * u)
     if cls == 'indefinite':
         k = draw(st.integers(1, max(1, n // 2)))
@@ -45,7 +45,7 @@ def matrix(draw, nmax=40):
     elif cls == 'negdef':
         sig = -sig
     sig = onp.sort(sig * draw(gen.logfloat(-2, 2)))
-    G = onp.array(draw(st.lists(st.floats(-1, 1), min_size=n * n, max_size=n * n))).reshape(n, n)
+    G = onp.array(draw(st.lists(gen.floats(-1, 1), min_size=n * n, max_size=n * n))).reshape(n, n)
     Q, _ = onp.linalg.qr(G + 3 * onp.eye(n))
     if draw(st.booleans()) and n <= 8:
         Q = onp.eye(n)[:, list(draw(st.permutations(list(range(n)))))]
@@ -57,7 +57,7 @@ def cg_cases(draw):
     m = draw(matrix())
     n = m['n']
     gk = draw(st.sampled_from(['generic', 'generic', 'orth_lowest', 'near_orth']))
-    c = onp.array(draw(st.lists(st.floats(-1, 1), min_size=n, max_size=n)))
+    c = onp.array(draw(st.lists(gen.floats(-1, 1), min_size=n, max_size=n)))
     if onp.abs(c).max() < 1e-3:
         c = c + 1.0
     if gk != 'generic' and n > 1:
@@ -67,7 +67,7 @@ def cg_cases(draw):
     gmag = draw(gen.logfloat(-3, 3))
     rad = draw(gen.logfloat(-6, 6))
     pk = draw(st.sampled_from(['exact', 'diag', 'random', 'identity']))
-    pseed = draw(st.lists(st.floats(0.1, 1.0), min_size=n, max_size=n))
+    pseed = draw(st.lists(gen.floats(0.1, 1.0), min_size=n, max_size=n))
     return {'mat': m, 'gkind': gk, 'c': (c * gmag).tolist(), 'rad': rad, 'pkind': pk, 'pseed': pseed,
             'precnorm': draw(st.booleans()), 'ratio': draw(st.sampled_from([1e-5, 1e-3, 1e-8, 1e-5])),
             'cgtol_rel': draw(st.sampled_from([1e-12, 1e-6])), 'max_cg': draw(st.sampled_from([1, 2, 5, 50, 200]))}
@@ -165,8 +165,8 @@ def dogleg_cases(draw):
     n = draw(st.integers(1, 8))
     m = draw(matrix(nmax=8))
     n = m['n']
-    cp = draw(st.lists(st.floats(-1, 1), min_size=n, max_size=n))
-    nw = draw(st.lists(st.floats(-1, 1), min_size=n, max_size=n))
+    cp = draw(st.lists(gen.floats(-1, 1), min_size=n, max_size=n))
+    nw = draw(st.lists(gen.floats(-1, 1), min_size=n, max_size=n))
     rel = draw(st.sampled_from(['free', 'newton_longer', 'cp_longer', 'collinear']))
     s1 = draw(gen.logfloat(-3, 3))
     s2 = draw(gen.logfloat(-3, 3))
@@ -232,7 +232,7 @@ def treigen_cases(draw):
     m = draw(matrix(nmax=13))
     n = m['n']
     gk = draw(st.sampled_from(['generic', 'orth_lowest', 'near_orth', 'near_orth', 'generic']))
-    c = onp.array(draw(st.lists(st.floats(-1, 1), min_size=n, max_size=n)))
+    c = onp.array(draw(st.lists(gen.floats(-1, 1), min_size=n, max_size=n)))
     if onp.abs(c).max() < 1e-3:
         c = c + 1.0
     nearexp = draw(st.integers(-16, -4))
